@@ -58,8 +58,10 @@ type Session struct {
 
 	streamsM sync.Mutex
 	streams  map[uint32]*Stream
-	// For accepting new streams
+	// For accepting new streams. It is never closed: a receiving goroutine may be waiting for room in it
 	acceptCh chan *Stream
+	// closed when the session closes; releases Accept and receiving goroutines waiting on acceptCh
+	closedCh chan struct{}
 
 	// a pool of heap allocated frame objects so we don't have to allocate a new one each time we receive a frame
 	recvFramePool sync.Pool
@@ -93,6 +95,7 @@ func MakeSession(id uint32, config SessionConfig) *Session {
 		SessionConfig: config,
 		nextStreamID:  1,
 		acceptCh:      make(chan *Stream, acceptBacklog),
+		closedCh:      make(chan struct{}),
 		recvFramePool: sync.Pool{New: func() interface{} { return &Frame{} }},
 		streams:       map[uint32]*Stream{},
 	}
@@ -176,12 +179,13 @@ func (sesh *Session) Accept() (net.Conn, error) {
 	if sesh.IsClosed() {
 		return nil, ErrBrokenSession
 	}
-	stream := <-sesh.acceptCh
-	if stream == nil {
+	select {
+	case stream := <-sesh.acceptCh:
+		log.Tracef("stream %v of session %v accepted", stream.id, sesh.id)
+		return stream, nil
+	case <-sesh.closedCh:
 		return nil, ErrBrokenSession
 	}
-	log.Tracef("stream %v of session %v accepted", stream.id, sesh.id)
-	return stream, nil
 }
 
 func (sesh *Session) closeStream(s *Stream, active bool) error {
@@ -263,10 +267,17 @@ func (sesh *Session) recvDataFromRemote(data []byte) error {
 	} else {
 		newStream := makeStream(sesh, frame.StreamID)
 		sesh.streams[frame.StreamID] = newStream
-		sesh.acceptCh <- newStream
-		sesh.streamsM.Unlock()
 		// new stream
 		sesh.streamCountIncr()
+		sesh.streamsM.Unlock()
+		// The accept queue may be full (the application is slow to Accept). Waiting for room while holding
+		// streamsM made the session impossible to close: closeSession, and with it Close, the inactivity
+		// timer and the teardown after a connection failure, queued behind this goroutine for ever
+		select {
+		case sesh.acceptCh <- newStream:
+		case <-sesh.closedCh:
+			return ErrBrokenSession
+		}
 		return newStream.recvFrame(frame)
 	}
 }
@@ -289,7 +300,7 @@ func (sesh *Session) closeSession() error {
 	}
 
 	sesh.streamsM.Lock()
-	close(sesh.acceptCh)
+	close(sesh.closedCh)
 	for id, stream := range sesh.streams {
 		if stream != nil && atomic.CompareAndSwapUint32(&stream.closed, 0, 1) {
 			_ = stream.recvBuf.Close() // will not block
